@@ -27,6 +27,18 @@ CHECKS = {
     "C09": ("concrete-execution soundness monitor on max_fee",
             "exploration over fee representatives around every constant",
             "trusts vt/ref/avm.py", "5/C09"),
+    "C02": ("push-down replay of every reported path against the reference graph + independent restatement of the nine exclusion predicates + rendering comparison",
+            "exploration over generated programs (incl. recursion, shared subroutines) and the repository's .teal corpus",
+            "trusts vt/ref/cfg.py; exclusion predicates restated in vt/checks/c02.py; corpus steps use tealer's own next lists", "5/C02"),
+    "C11": ("tagged-stack reference machine (cell histories) vs. construct_stack_ast",
+            "exhaustive over the opcode table for declared stack effects, exploration over straight-line sequences for operand attribution",
+            "trusts the stack-effect columns and identity maps of vt/spec/avm_table.py", "5/C11"),
+    "C16": ("generator ground truth + independent reference line grammar / literal decoders vs. parse_line and str()",
+            "opcode x field pass exhaustive; immediates, spellings and decoration sampled",
+            "trusts vt/spec/avm_table.py and the decoders in vt/checks/c16.py", "5/C16"),
+    "C19": ("spec-table oracle over stderr diagnostics, Teal.mode/contract_type and block cost annotations",
+            "opcode/field x declared-version table exhaustive; mode mixtures and cost blocks sampled",
+            "trusts vt/spec/avm_table.py (cross-checked against pyteal); field-level modes are not judged", "5/C19"),
 }
 
 
